@@ -17,7 +17,11 @@
 (*   - name()/ext() of a last component whose only dot is its first character *)
 (*     (".a": hidden file - extension "a" or no extension?) and of ".."       *)
 (*     (class "special"): both readings satisfy base = name.ext;              *)
-(*   - operator+ with an empty left operand, operator-.                       *)
+(*   - whether a run of separators is kept or collapsed where operator+ joins *)
+(*     its operands ("a" + "/b"), operator-, canonical.                       *)
+(* operator+ (both overloads) follows ONE rule, JoinNames: an empty left name *)
+(* returns the right operand, otherwise "this/other".  With it a name must    *)
+(* recompose from its parts: FileName(path()) + base() names the same file.   *)
 EXTENDS Strings
 
 SEP == "/"
@@ -42,7 +46,25 @@ ExtOf(f)   == ExtOfBase(BaseOf(f))
 DropExt(f) == PathOf(f) \o NameOf(f)
 SetExt(f, x) == DropExt(f) \o x
 AddExt(f, x) == f \o x
-Plus(f, g)   == f \o <<SEP>> \o g                           \* "this/other" (f non-empty)
+\* operator+, either overload: f is the left name (str()), g the right operand.
+\* An empty left name contributes nothing - in particular no separator, a relative
+\* name must not become absolute - otherwise "this/other".
+JoinNames(f, g) == IF f = <<>> THEN g ELSE f \o <<SEP>> \o g
+
+\* two strings name the same file: equal up to collapsing runs of separators and
+\* dropping trailing ones (a LEADING separator is significant: "/a" is not "a")
+RECURSIVE Collapse(_)
+Collapse(s) == IF Len(s) < 2 THEN s
+               ELSE IF s[1] = SEP /\ s[2] = SEP THEN Collapse(Tail(s)) ELSE <<s[1]>> \o Collapse(Tail(s))
+SameName(x, y) == StripSep(Collapse(x)) = StripSep(Collapse(y))
+AllSeps(s) == \A i \in DOMAIN s : s[i] = SEP
+
+\* input classes of operator+ and of the recomposition FileName(path()) + base()
+PlusCls(f, g) == (IF f = <<>> THEN "left=empty" ELSE "left=name") \o
+                 (IF AllSeps(g) THEN ",right=empty"                  \* "" or separators only
+                  ELSE IF g[1] = SEP THEN ",right=leadsep"
+                  ELSE IF g[Len(g)] = SEP THEN ",right=trailsep" ELSE ",right=name")
+RecomposeCls(f) == IF PathOf(f) = <<>> THEN "path=empty" ELSE IF AllSeps(PathOf(f)) THEN "path=root" ELSE "path=dir"
 
 \* a last component whose decomposition the statement leaves open
 Special(b) == (b # <<>> /\ b[1] = DOT /\ LastIdx(b, DOT) = 1) \/ b = <<DOT, DOT>>
@@ -74,4 +96,9 @@ FileLaws(f) ==
   /\ (~Has(b, DOT) => DropExt(f) = f)
   /\ PathOf(DropExt(f)) = PathOf(f)                                    \* the directory part is never touched
   /\ \A d \in {<<>>, <<"a", DOT, "a", SEP>>} : ExtOf(d \o b) = ExtOf(b) /\ NameOf(d \o b) = NameOf(b)   \* last component only
+  \* recomposition with the join rule: directory part (without its trailing separator) joined with the last component
+  /\ (PathOf(f) = <<>> => JoinNames(PathOf(f), b) = f)                     \* single component: nothing is prepended
+  /\ (~AllSeps(PathOf(f)) => SameName(JoinNames(StripSep(PathOf(f)), b), f))
+  /\ SameName(JoinNames(f, <<>>), f)                                      \* an empty right operand adds nothing
+  /\ (b # <<>> => BaseOf(JoinNames(PathOf(f), b)) = b)
 ===============================================================================
